@@ -7,7 +7,12 @@ pub mod c03;
 pub mod c04;
 pub mod c05;
 pub mod c06;
+pub mod c07;
+pub mod c08;
+pub mod c09;
 pub mod c14;
+pub mod c15;
+pub mod c18;
 pub mod c20;
 pub mod dec_common;
 
@@ -20,7 +25,12 @@ pub fn dispatch(cmd: &str, id: &str, pos: &[String], flags: &HashMap<String, Str
         "C04" => run_prop::<c04::C04>(cmd, pos, flags),
         "C05" => run_prop::<c05::C05>(cmd, pos, flags),
         "C06" => run_prop::<c06::C06>(cmd, pos, flags),
+        "C07" => run_prop::<c07::C07>(cmd, pos, flags),
+        "C08" => run_prop::<c08::C08>(cmd, pos, flags),
+        "C09" => run_prop::<c09::C09>(cmd, pos, flags),
         "C14" => run_prop::<c14::C14>(cmd, pos, flags),
+        "C15" => run_prop::<c15::C15>(cmd, pos, flags),
+        "C18" => run_prop::<c18::C18>(cmd, pos, flags),
         "C20" => run_prop::<c20::C20>(cmd, pos, flags),
         _ => {
             eprintln!("unknown property {id}");
